@@ -62,6 +62,8 @@ STRENGTHENED.update({
     "C13-5": "missed at first: asserts only stood at the top level; asserts in the body of a module instantiated by a function applied through map added",
     "C13-6": "missed at first: `ucg test` was never run with --no-strict; the first order of every case is now run once more with it",
     "C15-5": "missed at first: raw files were at most 40 bytes; lengths around 1 KiB, 2 KiB, 4 KiB added",
+    "C16-5": "missed at first: projects had one sub directory and no same-named siblings; a library in lib/ that imports its own ./defaults.ucg and is imported from lib/ and from app/ (which has another defaults.ucg) added",
+    "C20-5": "missed at first: the workspace had three independent disk files; six diamonds of disk files (top imports base and mid, mid imports base, the type error in top shows only through mid) added, with sessions that open and close the middle file before opening the top",
     "C16-6": "missed at first: no data file was shared between files; every project now has key.bin, which entry files include as b64 or b64urlsafe",
     "C17-5": "missed at first: map / filter callbacks were inline and their lists literal; a list bound in its own statement mapped / filtered by a named one-argument function in another statement added (this also found that the unchanged tree reported faults in such functions at the use of the result, repaired)",
     "C17-6": "missed at first: no fault was a missing field of a select result bound earlier; added",
@@ -75,8 +77,6 @@ STRENGTHENED.update({
 # changes that are not caught by the check of their property, and why
 NOT_CAUGHT = {
     "C02-6": "changes evaluation in the translator, not the parse tree C02 observes; caught by C01",
-    "C16-5": "needs a library in another directory than its importer that itself imports a sibling, two entry files in different directories, and a same-named file next to the first importer (or --no-strict); C16's projects have one sub directory and no same-named siblings. Not built for lack of time",
-    "C20-5": "needs a diamond of imports among files on disk, indexed at server start in a particular directory order, and a session that opens and closes the middle file; C20's workspace has three independent disk files. Not built for lack of time",
     "C02-4": "changes evaluation, not the parse tree C02 observes (`ucglib::parse::parse`); caught by C01 (compiled evaluation vs reference semantics)",
     "C17-3": "no longer manifests on the current tree: repair d250689 re-anchors the diagnostic for a call argument at the argument, which neutralises this change for its trigger (its demonstration passes on HEAD + patch); it was caught by C17 (`wrong-argument-type`) before that repair",
     "C18-3": "no longer manifests on the current tree: repair f3aa3d3 removed the checker defect (env inferred as a one-field tuple) that this change exposed; its demonstration passes on HEAD + patch. C18 now reads several variables per program and fails on the tree without f3aa3d3",
